@@ -329,17 +329,40 @@ def judge_worlds(worlds, scens, ctx, name, pid_sig=None):
 
 
 def known_replays(h, ctx):
-    """Deterministic re-execution of the schedules recorded with open known findings (KNOWN_FINDINGS.json)."""
+    """Deterministic re-execution of the schedules recorded with open known findings (KNOWN_FINDINGS.json).  A recorded schedule
+    depends on the harness (which operations are scheduling points); when it no longer reproduces the finding, the finding's
+    scenario is searched with a fixed seed, so that a finding that is still there is still reported as KNOWN-FINDING - and one that
+    is gone (repaired code) stays silent."""
     worlds, scens = [], []
     for e in ctx.known:
         rp = e.get("replay")
         if e.get("status") == "open" and rp:
             scen = dict(rp["scenario"])
             scen["judge"] = dict(scen.get("judge", {}), **ctx.extra.get("judge_override", {}))
-            w = h.execute(scen, S.scripted_chooser(rp["schedule"]))
+            hh = h
+            if rp.get("shared"):
+                hh = Harness.__new__(Harness)
+                hh.__dict__.update(h.__dict__)
+                hh.shared = set(rp["shared"])
+            w = hh.execute(scen, S.scripted_chooser(rp["schedule"]))
+            how = "recorded schedule"
+            if w.outcome == "ok":
+                rnd = random.Random(20261003)
+                tried = 0
+                for cand in explore(hh, scen, rnd, 4000, _Quiet()):
+                    tried += 1
+                    if cand.outcome != "ok":
+                        w, how = cand, "search of the finding's scenario (%d executions; the recorded schedule no longer reproduces it)" % tried
+                        break
+            ctx.extra.setdefault("known_finding_replays", []).append({"scenario": scen.get("name"), "outcome": w.outcome, "how": how})
             worlds.append(w)
             scens.append(scen)
     return worlds, scens
+
+
+class _Quiet:
+    def __init__(self):
+        self.extra = {}
 
 
 def real_leg(ctx, judge, name, quick, rnd):
